@@ -41,7 +41,7 @@ def shapes(tier, seed):
 def subset(carrier, which):
     names = flag_names(carrier)
     if which == 'late':
-        return [n for n in names if n in ('date', 'expired', 'future', 'arity', 'scope_date', 'scope_region', 'scope_service', 'scope_term',
+        return [n for n in names if n in ('date', 'expired', 'future', 'arity', 'arity_more', 'scope_date', 'scope_region', 'scope_service', 'scope_term',
                                           'provider', 'signature')]
     if which == 'auth':
         return [n for n in names if n in ('algorithm', 'syntax', 'missing_credential', 'missing_signature', 'missing_signedheaders',
@@ -137,7 +137,9 @@ def expected_concrete(carrier, date_header, on):
         if name == 'missing':
             hit = bool(on & {'missing_credential', 'missing_signature', 'missing_signedheaders', 'missing_date'}) or (carrier == 'header' and not date_header)
         elif name == 'scope':
-            hit = bool(on & {'scope_date', 'scope_region', 'scope_service', 'scope_term'})
+            hit = bool(on & {'scope_date', 'scope_region', 'scope_service', 'scope_term'}) or {'arity', 'arity_more'} <= on
+        elif name == 'arity':
+            hit = ('arity' in on) != ('arity_more' in on)
         else:
             hit = name in on
         if hit:
